@@ -58,8 +58,13 @@ def sanitizer(unit):
     micro = "µ"
     # mugr = "\u00b5"
     mugr = "μ"
-    return unit.replace(" ", "").replace("mu", "u").\
-        replace(micro, "u").replace(mugr, "u")
+    sanitized = None
+    while sanitized != unit:
+        # repeat until nothing changes: one pass can produce a new "mu"
+        sanitized = unit
+        unit = unit.replace(" ", "").replace("mu", "u").\
+            replace(micro, "u").replace(mugr, "u")
+    return unit
 
 
 def is_si(unit):
